@@ -75,7 +75,7 @@ CHECKS["C09"] = {
 }
 _LIFE_NOTE = ("trusted: TLC; the projection package (encoding/pem + encoding/asn1 shadow structures, standard-library RSA/ECDSA for NIST curves, "
               "own math/big arithmetic for brainpool) which reads the abstract state off the real directory; the simulated filesystem "
-              "(logical clock, fault plan). Bounded: 3 entities (chain / star / two roots), 2-3 content values, environment steps <= 2 (quick) / 3 "
+              "(logical clock, fault plan). Bounded: 3 entities (chain / star / two roots) or 4 entities (four tiers), 2-3 content values, environment steps <= 2 (quick) / 3 "
               "(thorough) + seeded random histories of length 10-12 on the real code; the wider alphabets add a shared profile file (EditProfile), expiry "
               "(Expire + generate-expired), edits of the issuer relation (SetIssuer) and configurations deleted / put back (RemoveConfig, AddConfig; "
               "a dangling issuer is refused), the profile file deleted / put back (RemoveProfile, AddProfile) and the profile reference of an "
